@@ -549,6 +549,39 @@ def many_keys_lock_cleanup(run):
         core.rm_rf(scratch)
 
 
+def tidy_store_cleanup(run):
+    """a store that holds nothing but results of the current jugfile (nothing for cleanup to delete) and some locks: the default mode still removes every lock,
+    --keep-locks leaves them all, no result is touched"""
+    scratch = core.scratch_dir()
+    try:
+        for kind in ('redis', 'file', 'dict', 'filez'):
+            for mode in ('default', 'keepLocks'):
+                d = os.path.join(scratch, 'tidy-%s-%s' % (kind, mode))
+                os.makedirs(d, exist_ok=True)
+                cfg = Cfg(kind, d)
+                store = cfg.open()
+                for k in range(NKEYS):
+                    store.dump(k + 1, keyname(k))
+                for k in (0, 2):
+                    assert store.getlock(keyname(k)).get()
+                store.getlock(keyname(2)).fail()
+                real_cleanup(cfg, mode, list(range(NKEYS)))
+                st2 = cfg.open()
+                left = [k for k in (0, 2) if st2.getlock(keyname(k)).is_locked()]
+                lost = [k for k in range(NKEYS) if not st2.can_load(keyname(k))]
+                run.case(('tidy-cleanup', kind, mode), nontrivial=True)
+                run.count('tidy_store_cleanups')
+                rp = {'kind': 'tidy-store-cleanup', 'backend': kind, 'mode': mode}
+                exp = [] if mode == 'default' else [0, 2]
+                if left != exp:
+                    run.fail('cleanup-locks:%s:tidy' % mode, 'cleanup mode %s on a %s store that holds only results of the current jugfile, one held and one failed lock: locks remaining afterwards on keys %s, expected %s'
+                             % (mode, kind, left, exp), rp)
+                if lost:
+                    run.fail('cleanup-removes-results:%s:tidy' % mode, 'cleanup mode %s on a %s store removed needed results %s' % (mode, kind, lost), rp)
+    finally:
+        core.rm_rf(scratch)
+
+
 def large_store_cleanup(run, nforeign=2600):
     """a store that holds thousands of results of other / older jugfiles (more than any batch size): the default and --keep-locks modes remove
     every one of them and none of the current jugfile's"""
